@@ -363,13 +363,29 @@ func existsPathAvoiding(fn *ssa.Function, target ssa.Instruction, gen func(ssa.I
 	if len(fn.Blocks) == 0 {
 		return false, nil
 	}
-	// condition normalisation: value tested, and which successor index means "value is nil/false"
+	// condition normalisation: value tested (against nil, a constant, or as a bool), and which
+	// successor index means "value equals that constant / is false".  Two loads of the same
+	// field of the same object count as the same value (sameValue).
 	type test struct {
 		v       ssa.Value
-		zeroIdx int // successor taken when v is nil (or false)
+		zeroIdx int
 	}
 	tests := map[*ssa.BasicBlock]test{}
 	count := map[ssa.Value]int{}
+	type repKey struct {
+		v ssa.Value
+		c string
+	}
+	var reps []repKey
+	canon := func(v ssa.Value, c string) ssa.Value {
+		for _, r := range reps {
+			if r.c == c && sameValue(r.v, v) {
+				return r.v
+			}
+		}
+		reps = append(reps, repKey{v, c})
+		return v
+	}
 	for _, b := range fn.Blocks {
 		v, trueIdx, ok := ifCond(b)
 		if !ok {
@@ -377,22 +393,28 @@ func existsPathAvoiding(fn *ssa.Function, target ssa.Instruction, gen func(ssa.I
 		}
 		if bo, ok := v.(*ssa.BinOp); ok && (bo.Op == token.EQL || bo.Op == token.NEQ) {
 			x, y := bo.X, bo.Y
-			if isNilConst(x) {
+			if _, isC := x.(*ssa.Const); isC {
 				x, y = y, x
 			}
-			if isNilConst(y) {
+			if c, isC := y.(*ssa.Const); isC {
+				ck := "nil"
+				if c.Value != nil {
+					ck = c.Value.ExactString()
+				}
 				zi := trueIdx
 				if bo.Op == token.NEQ {
 					zi = 1 - trueIdx
 				}
-				tests[b] = test{x, zi}
-				count[x]++
+				rv := canon(x, ck)
+				tests[b] = test{rv, zi}
+				count[rv]++
 				continue
 			}
 		}
 		if types.Identical(v.Type().Underlying(), types.Typ[types.Bool]) {
-			tests[b] = test{v, 1 - trueIdx}
-			count[v]++
+			rv := canon(v, "bool")
+			tests[b] = test{rv, 1 - trueIdx}
+			count[rv]++
 		}
 	}
 	type key struct {
